@@ -448,6 +448,9 @@ func (p *Proof) ProvesStatement(sign int, factor uint, bound *big.Int) bool {
 		return false
 	}
 	if len(p.Cs) == 3 {
+		if factor > math.MaxUint/4 {
+			return false // would wrap around below; three-square proofs only exist for factor 1
+		}
 		factor *= 4
 		bound = new(big.Int).Mul(bound, big.NewInt(4))
 		bound.Sub(bound, big.NewInt(int64(2*sign)))
